@@ -146,14 +146,18 @@ def damaged_stream(c, i, m):
     (garbled) text before the codec notices, the oracle decompresses in one piece - which of syntax error / invalid
     stream / truncated stream is reported first is not compared (all are failures to load that Manifest)"""
     muts = c.meta.get('mutations') or []
-    if not any(str(x).startswith(('manifest-byte', 'manifest-garbage')) for x in muts):
-        return i, m
+    mutated = any(str(x).startswith(('manifest-byte', 'manifest-garbage')) for x in muts)
     if i[0] == 'ok' and m[0] == 'ok' and len(i[1]) == len(m[1]):
         for k, (a, b) in enumerate(zip(i[1], m[1])):
             if a != b:
                 def dmg(x):
                     return x[0] == 'err' and (x[1][0] in DAMAGED[:3] or x[1][:2] == ['Internal', 'UnicodeError'])   # garbled text is not UTF-8 either
-                if dmg(a) and dmg(b):
+                # a file that is not UTF-8 text, named by a MANIFEST entry (e.g. a data file listed under that tag): the text reader
+                # of the implementation hands out the lines before the bad byte first, so a syntax error in those is met before the
+                # decoding error which the oracle (decoding in one piece) reports - both refuse to load it, outside "UTF-8 Manifest text"
+                def notutf8_pair(x, y):
+                    return x[0] == 'err' and y[0] == 'err' and x[1][:1] == ['ManifestSyntaxError'] and y[1][:2] == ['Internal', 'UnicodeError']
+                if (mutated and dmg(a) and dmg(b)) or notutf8_pair(a, b):
                     x = [['err', ['DamagedManifest']]]
                     return ['ok', i[1][:k] + x + i[1][k + 1:]], ['ok', m[1][:k] + x + m[1][k + 1:]]
                 break
